@@ -64,6 +64,10 @@ def run(ctx):
                 c.driver = 'parfile'; c.plan = [f'fail copy_file_range * * {scen.ERRNO["EXDEV"]}']
                 if i in (10, 11, 12):
                     data = sum(([('seg', K, 40 + q), ('hole', rng.choice([1, 2]) * MB)] for q in range(12)), []); c.files = [('sp', data)]; c.no_progress = i == 12; c.bsize = [4096, MB, MB][i - 10]
+            if i in (13, 14):
+                # corpus: hundreds of extents (more than 8 pages of the extent map): the holes after the 256th are holes too
+                c.driver = 'parblock'; c.no_progress = False; c.bsize = [MB, 100000][i - 13]; c.plan = []
+                data = sum(([('seg', 4 * K, 60 + q % 200), ('hole', 256 * K)] for q in range(300)), []); c.files = [('sp', data)]
             if i in (6, 7, 8, 9):
                 # corpus: an UNBOUNDED block size (--no-progress) or one larger than the gaps must not merge neighbouring data
                 # extents across the holes between them
